@@ -284,11 +284,23 @@ func (e *env) checkFrame(id string) []string {
 }
 
 // substitute returns (creating on first use) the substitute object of a slot.
-func (e *env) substitute(slot string, target *sdl.Instance, subType string) any {
+func (e *env) substitute(slot string, target *sdl.Instance, subType string, cur any) any {
 	if s, ok := e.subs[slot]; ok {
 		return s
 	}
 	if subType == "" {
+		subType = target.Type
+	}
+	if sdl.IsDeco(subType) {
+		// a decorator around the object the callback was given (when that is the component itself)
+		typ := e.bind.Types[subType]
+		if cv := reflect.ValueOf(cur); typ != nil && cv.IsValid() && cv.Type() == typ.Field(0).Type {
+			v := reflect.New(typ)
+			v.Elem().Field(0).Set(cv)
+			e.ptrID[keyOf(v)] = "sub:" + slot
+			e.subs[slot] = v.Interface()
+			return v.Interface()
+		}
 		subType = target.Type
 	}
 	// all substitutes of one component are structurally identical (same handle content): what
@@ -707,10 +719,10 @@ func (e *env) main(inClose, closeReturned *bool) {
 					if r.Fresh {
 						e.freshN[r.Sub]++
 						if n := e.freshN[r.Sub]; n > 1 {
-							return e.substitute(fmt.Sprintf("%s#%d", r.Sub, n), tgt, r.SubType)
+							return e.substitute(fmt.Sprintf("%s#%d", r.Sub, n), tgt, r.SubType, cur)
 						}
 					}
-					return e.substitute(r.Sub, tgt, r.SubType)
+					return e.substitute(r.Sub, tgt, r.SubType, cur)
 				}
 				if r.Target == tgt.ID && r.At == cb && r.Action == "self" && cb == sdl.CbBeforeInst {
 					return cur // the registered instance itself: creation is short-circuited
